@@ -121,7 +121,7 @@ func nlCase(w *gen.Writer, r *gen.Rand) {
 	nlRun(w, nlDetail{data, offs, lns}, "newlines")
 }
 
-func nlRun(w *gen.Writer, d nlDetail, class string) {
+func nlRunUnguarded(w *gen.Writer, d nlDetail, class string) {
 	data, offs, lns := d.Data, d.Offs, d.Lns
 	locs := nlLocs(data)
 	n := index.VerifC03Newlines{Locs: locs, FileSize: uint32(len(data))}
@@ -197,7 +197,7 @@ func chunkCase(w *gen.Writer, r *gen.Rand) {
 	chunkRun(w, chunkDetail{data, cs, ctx}, "chunkCandidates")
 }
 
-func chunkRun(w *gen.Writer, d chunkDetail, class string) {
+func chunkRunUnguarded(w *gen.Writer, d chunkDetail, class string) {
 	data, cs, ctx := d.Data, d.Cands, d.Ctx
 	locs := nlLocs(data)
 	got := index.VerifC03ChunkCandidates(cs, index.VerifC03Newlines{Locs: locs, FileSize: uint32(len(data))}, ctx)
@@ -254,7 +254,7 @@ type colDetail struct {
 	Qs   [][2]uint32 `json:"qs"`
 }
 
-func colRun(w *gen.Writer, d colDetail, class string) {
+func colRunUnguarded(w *gen.Writer, d colDetail, class string) {
 	data, qs := d.Data, d.Qs
 	got := index.VerifC03Columns(data, qs)
 	var qss []string
@@ -443,4 +443,22 @@ func main() {
 		}
 	}
 	w.Count("e2e-files-reported", files)
+}
+
+func nlRun(w *gen.Writer, d nlDetail, class string) {
+	e2lib.Guard(w, class, struct {
+		Nl nlDetail `json:"nl"`
+	}{d}, func() { nlRunUnguarded(w, d, class) })
+}
+
+func chunkRun(w *gen.Writer, d chunkDetail, class string) {
+	e2lib.Guard(w, class, struct {
+		Chunk chunkDetail `json:"chunk"`
+	}{d}, func() { chunkRunUnguarded(w, d, class) })
+}
+
+func colRun(w *gen.Writer, d colDetail, class string) {
+	e2lib.Guard(w, class, struct {
+		Col colDetail `json:"col"`
+	}{d}, func() { colRunUnguarded(w, d, class) })
 }
